@@ -185,37 +185,65 @@ fn skeleton(which: u8, n: u8) -> Vec<Op> {
             HeartbeatHalf(b),
             Propose(b),
             DeliverAllTo(b),
+            // (a leader accepts proposals only once a quorum has answered an append)
+            Propose(b),
             HeartbeatRound(b),
             ElectRound(a),
         ],
-        // figure 8 of the Raft paper (needs 5 nodes; degenerates harmlessly on 3)
+        // figure 8 of the Raft paper on 5 nodes. A new leader only accepts proposals after a
+        // quorum has answered an AppendEntries (is_write_safe), hence the heartbeat rounds.
+        //  (a) a leads, its entry reaches b only      (b) e is elected by c, d and appends its own
+        //  (c) a is re-elected, copies the old entry to c (now on a majority) and, while a
+        //      further (empty) append is in flight, appends an entry of its new term; the answer
+        //      arrives                                 (d) e is elected again and replicates
         1 if n >= 5 => vec![
             ElectRound(a),
-            ProposeRound(a),
+            HeartbeatRound(a),
             Propose(a),
             Heartbeat(a),
             DeliverFromTo(a, b),
             ElectRound(e),
+            HeartbeatRound(e),
             Propose(e),
             ElectRound(a),
             Heartbeat(a),
             DeliverFromTo(a, b),
-            DeliverFromTo(a, c),
             DeliverFromTo(b, a),
+            DeliverFromTo(a, c),
             DeliverFromTo(c, a),
             Heartbeat(a),
-            DeliverFromTo(a, b),
+            Propose(a),
             DeliverFromTo(a, c),
-            DeliverFromTo(b, a),
-            DeliverFromTo(c, a),
-            Heartbeat(a),
-            DeliverFromTo(a, b),
-            DeliverFromTo(a, c),
-            DeliverFromTo(b, a),
             DeliverFromTo(c, a),
             ElectRound(e),
             HeartbeatRound(e),
+            HeartbeatRound(e),
+            ProposeRound(e),
+            HeartbeatRound(e),
             let_d(d),
+        ],
+        // figure 8 folded onto 3 nodes (a = S1, b = the follower, c = the rival S5)
+        1 => vec![
+            ElectRound(a),
+            HeartbeatRound(a),
+            Propose(a),
+            ElectRound(c),
+            HeartbeatRound(c),
+            Propose(c),
+            ElectRound(a),
+            Heartbeat(a),
+            DeliverFromTo(a, b),
+            DeliverFromTo(b, a),
+            Heartbeat(a),
+            Propose(a),
+            DeliverFromTo(a, b),
+            DeliverFromTo(b, a),
+            ElectRound(c),
+            HeartbeatRound(c),
+            HeartbeatRound(c),
+            ProposeRound(c),
+            HeartbeatRound(c),
+            DeliverAllTo(a),
         ],
         // leader change with in-flight appends and a restart of the old leader
         _ => vec![
@@ -226,6 +254,8 @@ fn skeleton(which: u8, n: u8) -> Vec<Op> {
             ElectRound(b),
             CrashRestart(a),
             DeliverAllTo(c),
+            HeartbeatHalf(b),
+            DeliverAllTo(b),
             ProposeRound(b),
             DeliverAllTo(a),
             DeliverAllTo(b),
@@ -839,6 +869,20 @@ fn run_case(case: &Case, ctx: &mut CaseCtx) -> Result<(), Fail> {
         let d1 = t1.elapsed();
         let t2 = std::time::Instant::now();
         sim.check(ctx)?;
+        if std::env::var("NV_TRACE").is_ok() {
+            let mut line = format!("{op:?}:");
+            for i in 0..case.n as usize {
+                let log: Vec<u64> = sim.log_of(i).iter().map(|e| e.1.term).collect();
+                line += &format!(
+                    "  n{i} {:?} t{} log{:?} c{}",
+                    sim.nodes[i].state(),
+                    sim.nodes[i].current_term(),
+                    log,
+                    sim.nodes[i].commit_index()
+                );
+            }
+            eprintln!("{line}  inflight={} refused={} skipped={}", sim.bag_len(), sim.refused, sim.skipped);
+        }
         if std::env::var("NV_PROF").is_ok() && (d1.as_millis() > 2 || t2.elapsed().as_millis() > 2) {
             eprintln!("slow op {op:?}: apply {d1:?} check {:?}", t2.elapsed());
         }
